@@ -48,4 +48,4 @@ def count_nonzero(
     """
     a = numpoly.aspolynomial(x)
     index = numpy.any(numpy.asarray(a.coefficients), axis=0)
-    return numpy.count_nonzero(index, axis=axis)
+    return numpy.count_nonzero(index, axis=axis, **kwargs)
